@@ -1064,8 +1064,14 @@ def gen_kthlist2pebbling(tier, T):
         for w in words(A3 if thorough else A2, a + 1, a + 1):
             yield case(fam, tool, sub, [], ok + [name] + w)
         yield case(fam, tool, sub, [], ok + [name, '-h'])
-        yield case(fam, tool, sub, [], ok + [name] + ['4'] * a)
-        yield case(fam, tool, sub, [], ['-i', '{FX}/dag_empty.kthlist', name] + ['2'] * a)
+        # arguments argparse accepts and the transformation itself may refuse:
+        # the tool's own error path, in a process of its own (in-process the
+        # parsers of the other tools have been built before)
+        yield case(fam, tool, sub, [], ok + [name] + ['4'] * a, core=True)
+        yield case(fam, tool, sub, [], ['-i', '{FX}/dag_empty.kthlist', name] + ['2'] * a, core=True)
+        if a == 2:
+            yield case(fam, tool, sub, [], ok + [name, '2', '3'], core=True)
+            yield case(fam, tool, sub, [], ok + [name, '3', '7'], core=True)
         if graph_type(d):
             for s in SPECS['bipartite'][:4] + [['glrd', '3', '2', '1'], ['x']]:
                 yield case(fam, tool, sub, [], ok + [name] + s)
